@@ -1,6 +1,6 @@
 (* ConfigObjFacts.v — proofs for C14: the objective shadow [default_prio_vector; user prios]
    ranks 0/1 points lexicographically; which columns the constructors tag with -2. *)
-Require Import Puan.Base Puan.Plog Puan.Sem Puan.Compress Puan.CompressSpec Puan.CompressFacts Puan.ConfigObj.
+Require Import Puan.Base Puan.Plog Puan.Sem Puan.SemFacts Puan.Compress Puan.CompressSpec Puan.CompressFacts Puan.ConfigObj.
 
 (* ---------------------------------------------------------------- the levels of a 2-row priority array *)
 Lemma column_two dpv u j : column [dpv; u] j = [nth j dpv 0; nth j u 0].
@@ -164,7 +164,7 @@ Proof.
   intros Hj. unfold default_prio_vector.
   rewrite (nth_error_nth _ _ 0 (map_nth_error _ _ _ Hj)). cbn beta.
   assert (Hc : In c (columns true p)) by (eapply nth_error_In; exact Hj).
-  unfold columns in Hc. apply in_map_iff in Hc. destruct Hc as [q0 [Eq Hq0]]. apply filter_In in Hq0. destruct Hq0 as [Hq0 _].
+  unfold columns in Hc. apply in_map_iff in Hc. destruct Hc as [q0 [Eq Hq0]]. apply filter_In in Hq0. destruct Hq0 as [Hq0 _]. apply dict_by_id_in in Hq0.
   unfold dict_get, alookup_last.
   match goal with |- context [match ?X with Some _ => _ | None => _ end] => destruct X as [v|] eqn:E end.
   - apply alookup_in in E. apply in_rev in E. unfold default_prios in E. apply in_map_iff in E. destruct E as [q [Eq' Hq]].
